@@ -200,6 +200,18 @@ func VerifCheck_entry() {
 		verifFail("error-startingat", err.Error())
 	}
 	verifAssert("FindRunesMatchStartingAt(edge)==FindRunesMatch", verifEqInts(verifSnap(m1), sr))
+	// interior start offsets: a byte offset on a rune boundary of the string equals the rune offset of the slice
+	for k := 1; k < len(rs); k++ {
+		a, err := re.FindStringMatchStartingAt(s, offs[k])
+		if err != nil {
+			verifFail("error-startingat", err.Error())
+		}
+		b, err := re.FindRunesMatchStartingAt(rs, k)
+		if err != nil {
+			verifFail("error-startingat", err.Error())
+		}
+		verifAssert("FindStringMatchStartingAt(byte k)==FindRunesMatchStartingAt(rune k)", verifEqInts(verifSnap(a), verifSnap(b)))
+	}
 	// byte ranges of the string match = rune spans mapped through the decode widths
 	if ms != nil {
 		bi, bl := ms.ByteRange()
